@@ -15,6 +15,12 @@ if action.startswith("touch:"):
     sys.exit(0)
 if action == "sleep":
     # longer than the limit the harness sets (3 s), shorter than in-toto's default limit (10 s):
-    # a time limit that is not passed on (e.g. into a sublayout) lets this command finish
+    # a time limit that is not passed on (e.g. into a sublayout) lets this command finish.
+    # The command does not end when asked politely (SIGTERM is ignored): a time limit is enforced, not requested. If it
+    # gets to the end of its sleep it says so in <log>.late.
+    import signal
+    signal.signal(signal.SIGTERM, signal.SIG_IGN)
     time.sleep(8.5)
+    with open(log + ".late", "a", encoding="utf8") as f:
+        f.write(ident + "\n")
 sys.exit(0)
